@@ -47,6 +47,24 @@ def parsers(F):
     return out
 
 
+def mutators(F):
+    """Methods (other than constructors, parse, clone) of a packet struct that assign one of its VariableByteInteger fields."""
+    out = []
+    for adt, a in sorted(F.adts.items()):
+        m = re.match(r"^mqtt::packet::(v3_1_1|v5_0)::(\w+)::\w+$", adt)
+        if not m or "Builder" in adt or not a.get("variants"):
+            continue
+        for fd in a["variants"][0]["fields"]:
+            if not fd["ty"].endswith("VariableByteInteger"):
+                continue
+            for n, g in conn.direct_writers(F, fd["name"], adt=adt).items():
+                if g.get("kind") != "AssocFn" or g.get("impl_trait") or g["path"].startswith("<"):
+                    continue
+                if g["locals"][1:2] and g["locals"][1].startswith("&mut") and (m.group(1), m.group(2), g["path"]) not in out:
+                    out.append((m.group(1), m.group(2), g["path"]))
+    return out
+
+
 def id_buffers_ok(F):
     """IsPacketId impls: Buffer = [u8; size_of::<Self>()] for every implementor (u16 -> 2, u32 -> 4)."""
     ims = F.impls_of("mqtt::packet::packet_id::IsPacketId")
@@ -128,7 +146,10 @@ class Acct:
         self.F = F
         self.consumed_facts = consumed_facts      # callee post-conditions consumed <= len(input) (proved by C04-R6)
 
-    def run(self, ver, kind, bfn, parser=False):
+    def run(self, ver, kind, bfn, parser=False, mutator=None):
+        """mutator: path of a `&mut self` method of the packet struct that rewrites its length fields (e.g. after a topic /
+        property edit); bfn is then the builder of the same kind: the method is applied to every value a builder path
+        produces and its post-state is checked like a freshly built value."""
         F = self.F
         if parser:
             ex = explore.Explorer(F, inline_pred=lambda exx, callee, info: callee.get("kind") == "Closure" or explore.small_private_helper(callee))
@@ -156,10 +177,57 @@ class Acct:
         exp = lambda t: conn.expand_all(ex.interned_rev, t)
         lin = linear.Lin(exp)
         rec = {"ver": ver, "kind": kind, "fn": bfn, "ok": 0, "diff": [], "undecided": [], "prop_ok": 0, "prop_diff": []}
-        for p in ps:
-            if not (p.kind == "return" and p.ret and p.ret[0] == "agg" and p.ret[2] == "Ok"):
-                continue
-            S = p.ret[3][0]
+        cands = []
+        if mutator:
+            # composed with the constructors: the method is applied to every value a builder path produces (so that the
+            # struct's own invariants, e.g. "packet id present iff QoS > 0", hold in the pre-state), then checked
+            mfn = mutator
+            madt = F.fns[mfn].get("impl_self", "").split("<")[0]
+            mf = F.adts[madt]["variants"][0]["fields"] if madt in F.adts else []
+            for pb in ps:
+                if not (pb.kind == "return" and pb.ret and pb.ret[0] == "agg" and pb.ret[2] == "Ok"):
+                    continue
+                Sb = pb.ret[3][0]
+                if Sb[0] != "agg" or Sb[1] != madt:
+                    continue
+                exm = explore.Explorer(F, inline_pred=lambda exx, callee, info, adt=madt: (
+                    callee.get("impl_self", "").split("<")[0] == adt and len(callee["blocks"]) <= 30) or callee.get("kind") == "Closure"
+                    or explore.small_private_helper(callee))
+                exm.interned, exm.interned_rev = ex.interned, ex.interned_rev
+                exm.no_fold = ex.no_fold
+
+                def setup_m(exx, st, fr, Sb=Sb, pb=pb):
+                    for fd, v in zip(mf, Sb[3]):
+                        st.heap[(("self",), (("f", fd["i"], fd["name"]),))] = v
+                    for hk, hv in pb.heap.items():
+                        if hk[0] and hk[0][0] == "CS":
+                            st.heap[hk] = hv
+                    st.cons.update(pb.cons)
+                for pm in exm.run(mfn, setup=setup_m):
+                    if pm.kind != "return":
+                        continue
+                    vals = {}
+                    for e in pm.effects:
+                        if e[0] == "write" and e[1] == ("self",) and len(e[2]) == 1 and e[2][0][0] == "f":
+                            vals[e[2][0][1]] = e[3]
+                    if not any(mf[i]["ty"].endswith("VariableByteInteger") for i in vals if i < len(mf)):
+                        continue
+                    S2 = ("agg", madt, Sb[2], tuple(vals.get(fd["i"], Sb[3][k]) for k, fd in enumerate(mf)))
+                    heap2 = dict(pb.heap)
+                    heap2.update(pm.heap)
+
+                    class _PP(object):
+                        pass
+                    pp = _PP()
+                    pp.cons, pp.heap, pp.effects, pp.kind, pp.ret = pm.cons, heap2, pm.effects, "return", None
+                    pp.events = lambda: None
+                    cands.append((pp, S2))
+        else:
+            for p in ps:
+                if not (p.kind == "return" and p.ret and p.ret[0] == "agg" and p.ret[2] == "Ok"):
+                    continue
+                cands.append((p, p.ret[3][0]))
+        for p, S in cands:
             if parser and S[0] == "tup" and len(S[1]) == 2:
                 S = S[1][0]          # Ok((packet, consumed))
             if S[0] != "agg" or S[1] not in F.adts:
